@@ -9,4 +9,17 @@ theorem tie_remove_disposes :
 theorem tie_replaced_drained_then_disposed :
     chain (skel "Router.deployTargetsIntoService") ["r.installService", "replaced.DrainAll", "replaced.Dispose"] = true := by decide
 
+/-- the blocking operations of a function, from the regenerated table -/
+def blockingOf (fn : String) : List String :=
+  (Generated.blocking.filter fun (r : BRow) => r.fn == fn).map fun (r : BRow) => r.kind
+
+/-- every target is drained in its own goroutine with its own deadline timer, and the only place `Target.Drain`
+    can block is the one `select` that also listens to that deadline (model: `drainStep` is enabled at the
+    deadline whatever requests do) -/
+theorem tie_drain_bounded :
+    chain (skel "LoadBalancer.DrainAll") ["wg.Add", "go:target.Drain", "wg.Wait"] = true ∧
+    countOf (skel "Target.Drain") "time.After" = 1 ∧ countOf (skel "LoadBalancer.DrainAll") "time.After" = 0 ∧
+    blockingOf "Target.Drain" = ["select"] ∧
+    blockingOf "Target.WaitUntilHealthy" = ["select"] := by decide
+
 end KamalProxy.C17
